@@ -130,10 +130,13 @@ theorem pollStep_sameT (s : St) (inp : PollIn) : SameT s (pollStep s inp).1 := b
 
 /-! ### the timer calls -/
 
-theorem mkTimer_invT (s : St) (i : Id) (iv : Int) (h : InvT s) : InvT (mkTimer s i iv) := by
+theorem mkTimer_invT (s : St) (i : Id) (iv0 : Int) (h : InvT s) : InvT (mkTimer s i iv0) := by
   unfold mkTimer
   by_cases hf : fresh s i = true
   · simp only [hf, if_true]
+    generalize hiv : (if iv0 < 1 then (1 : Int) else iv0) = iv
+    have hpos : 0 < iv := by
+      rw [← hiv]; by_cases hlt : iv0 < 1 <;> simp [hlt] <;> omega
     have hu : s.used i = false := by
       unfold fresh at hf; cases hx : s.used i <;> simp [hx] at hf ⊢
     have hnone : s.timers i = none := by
@@ -141,7 +144,7 @@ theorem mkTimer_invT (s : St) (i : Id) (iv : Int) (h : InvT s) : InvT (mkTimer s
       | none => rfl
       | some t => have := h.usedT i t ht; simp [hu] at this
     have hd := h.dead i hnone
-    refine ⟨sorted_qInsert _ _ _ h.sorted, ?_, ?_, ?_, ?_⟩
+    refine ⟨sorted_qInsert _ _ _ h.sorted, ?_, ?_, ?_, ?_, ?_⟩
     · intro j t hj
       by_cases hji : j = i
       · subst hji
@@ -165,6 +168,10 @@ theorem mkTimer_invT (s : St) (i : Id) (iv : Int) (h : InvT s) : InvT (mkTimer s
       · subst hji; simp [upd]
       · simp [upd, hji] at hj ⊢
         exact h.usedT j t hj
+    · intro j t hj
+      by_cases hji : j = i
+      · subst hji; simp [upd] at hj; subst hj; exact hpos
+      · simp [upd, hji] at hj; exact h.pos j t hj
   · simp only [hf, Bool.false_eq_true, if_false]; exact h
 
 theorem rmTimer_invT (s : St) (i : Id) (h : InvT s) : InvT (rmTimer s i) := by
@@ -174,7 +181,7 @@ theorem rmTimer_invT (s : St) (i : Id) (h : InvT s) : InvT (rmTimer s i) := by
   | some t =>
     simp only
     obtain ⟨a1, a2, a3, a4⟩ := qErase_spec s.queue t.exec i h.sorted (h.live i t ht)
-    refine ⟨a3, ?_, ?_, ?_, ?_⟩
+    refine ⟨a3, ?_, ?_, ?_, ?_, ?_⟩
     · intro j tj hj
       by_cases hji : j = i
       · subst hji; simp [markGone, upd] at hj
@@ -194,6 +201,11 @@ theorem rmTimer_invT (s : St) (i : Id) (h : InvT s) : InvT (rmTimer s i) := by
       · subst hji; simp [markGone, upd] at hj
       · simp [markGone, upd, hji] at hj
         exact h.usedT j tj hj
+    · intro j tj hj
+      by_cases hji : j = i
+      · subst hji; simp [markGone, upd] at hj
+      · simp [markGone, upd, hji] at hj
+        exact h.pos j tj hj
 
 theorem applyAct_invT (s : St) (nc : Option Id) (a : Act) (h : InvT s) : InvT (applyAct s nc a) := by
   cases a <;> unfold applyAct
@@ -209,6 +221,9 @@ theorem applyAct_invT (s : St) (nc : Option Id) (a : Act) (h : InvT s) : InvT (a
   case resume i => exact h.same (resume_sameT s i)
   case read i => exact h.same (read_sameT s i)
   case write i n o => exact h.same (write_sameT s i n o)
+  case mkPair i => exact h.same (mkPair_sameT s i)
+  case mkListener i => exact h.same (mkListener_sameT s i)
+  case mkEst i => exact h.same (mkEst_sameT s i)
 
 theorem runActs_invT (s : St) (nc : Option Id) (acts : List Act) (h : InvT s) : InvT (runActs s nc acts) := by
   induction acts generalizing s with
@@ -271,7 +286,7 @@ theorem step_invT (s : St) (inp : PollIn) (o : Outcome) (h : InvT s) : InvT (ste
         cases v with
         | none =>
           simp only
-          refine ⟨sorted_qInsert _ _ _ hsort.2, ?_, ?_, ⟨now + 300000, (mem_qInsert _ _ _ _).mpr (Or.inl rfl)⟩, h.usedT⟩
+          refine ⟨sorted_qInsert _ _ _ hsort.2, ?_, ?_, ⟨now + 300000, (mem_qInsert _ _ _ _).mpr (Or.inl rfl)⟩, h.usedT, h.pos⟩
           · intro j t hj
             show entsOf (qInsert rest (now + 300000) none) j = _
             rw [ents_qInsert_ne _ _ _ _ (by simp)]
@@ -300,7 +315,7 @@ theorem step_invT (s : St) (inp : PollIn) (o : Outcome) (h : InvT s) : InvT (ste
             rw [hq] at hl
             simp only [entsOf, List.filter_cons, beq_self_eq_true, if_true] at hl
             have hrest : entsOf rest t = [] := (List.cons.inj hl).2
-            refine ⟨sorted_qInsert _ _ _ hsort.2, ?_, ?_, ?_, ?_⟩
+            refine ⟨sorted_qInsert _ _ _ hsort.2, ?_, ?_, ?_, ?_, ?_⟩
             · intro j tj hj
               by_cases hjt : j = t
               · subst hjt
@@ -332,6 +347,10 @@ theorem step_invT (s : St) (inp : PollIn) (o : Outcome) (h : InvT s) : InvT (ste
               by_cases hjt : j = t
               · subst hjt; exact h.usedT j ti ht
               · simp [upd, hjt] at hj; exact h.usedT j tj hj
+            · intro j tj hj
+              by_cases hjt : j = t
+              · subst hjt; simp [upd] at hj; subst hj; exact h.pos j ti ht
+              · simp [upd, hjt] at hj; exact h.pos j tj hj
       · simp only [hk, if_false]
         exact h.same ⟨by simp [hq], rfl, fun _ h => h⟩
   | closing now tmo =>
